@@ -254,6 +254,20 @@ func (t TV) Go() any {
 		return TextStringer{S: t.S}
 	case "error":
 		return &TextError{S: t.S}
+	case "nil*[]any":
+		return (*[]any)(nil)
+	case "nil*[]Item":
+		return (*[]Item)(nil)
+	case "nil*map":
+		return (*map[string]any)(nil)
+	case "nil*[2]int":
+		return (*[2]int)(nil)
+	case "*[]any":
+		l := []any{1, "a"}
+		return &l
+	case "*map":
+		m := map[string]any{"a": 1}
+		return &m
 	case "nil*time": // typed nil pointers whose type has String()/Error(): fmt prints them as <nil>
 		return (*time.Time)(nil)
 	case "nil*Stringer":
@@ -328,7 +342,7 @@ func (t TV) Truthy() (truthy bool, decided bool) {
 		return t.F != 0, true
 	case "string":
 		return t.S != "", true
-	case "nil*Item", "nilslice", "nilmap", "nil*time", "nil*Stringer", "nil*error":
+	case "nil*Item", "nilslice", "nilmap", "nil*time", "nil*Stringer", "nil*error", "nil*[]any", "nil*[]Item", "nil*map", "nil*[2]int":
 		return false, false
 	// named types: a non-zero value is truthy under every reading; whether the
 	// zero value counts as "zero of a numeric type" / "the empty string" the
